@@ -598,6 +598,16 @@ func runC02(c *Ctx) {
 				if !isStartWrite {
 					return
 				}
+				// the constructor initialising the object it has just allocated is not a start
+				if cl, isCall := in.(*ssa.Call); isCall && len(cl.Call.Args) > 0 {
+					_, base := FieldOf(cl.Call.Args[0])
+					if fa, isFA := cl.Call.Args[0].(*ssa.FieldAddr); isFA {
+						base = fa.X
+					}
+					if _, fresh := base.(*ssa.Alloc); fresh && g.Parent() == nil {
+						return
+					}
+				}
 				n++
 				// g must be a closure passed to startOnce.Do (or a helper called only from such closures)
 				ok := false
